@@ -469,7 +469,7 @@ static void byz_on_record(Conn *c, int dir, int idx, const uint8_t *rec_in, size
 }
 
 /* ----------------------------------------------------------- generation */
-static struct { uint64_t key; int nrec[2]; int big[2]; int ok; } g_btwin;
+static struct { uint64_t key; int nrec[2]; int big[2]; int ok; uint64_t nmalloc[2]; } g_btwin;
 
 static void byz_gen(Plan *p, uint64_t base_seed, uint64_t variant, int tier)
 {
@@ -490,6 +490,7 @@ static void byz_gen(Plan *p, uint64_t base_seed, uint64_t variant, int tier)
 		RunResult rr; memset(&rr, 0, sizeof(rr));
 		honest_oracle(p, &o, &rr);
 		g_btwin.key = key; g_btwin.ok = !rr.violated;
+		g_btwin.nmalloc[0] = g_sim.nodes[0].nmalloc; g_btwin.nmalloc[1] = g_sim.nodes[1].nmalloc;
 		for (int d = 0; d < 2; d++) {
 			size_t best = 0;
 			g_btwin.nrec[d] = 0; g_btwin.big[d] = 0;
@@ -510,7 +511,10 @@ static void byz_gen(Plan *p, uint64_t base_seed, uint64_t variant, int tier)
 		/* no byzantine peer, but the victim's allocator fails: the out-of-memory paths of the handshake and of
 		 * record sending run under the sanitizers (and under the leak monitor in the C19 parts) */
 		p->nfaults = 0;
-		p->afail_node = p->victim; p->afail_at = rng_below(&v, 6); p->afail_rest = rng_below(&v, 2);
+		/* aim at an endpoint that allocates in this configuration, at one of the calls its fault-free twin made */
+		if (!g_btwin.nmalloc[p->victim] && g_btwin.nmalloc[1 - p->victim]) p->victim = 1 - p->victim;
+		uint64_t nm = g_btwin.nmalloc[p->victim];
+		p->afail_node = p->victim; p->afail_at = nm ? rng_below(&v, (uint32_t)(nm > 40 ? 40 : nm)) : 0; p->afail_rest = rng_below(&v, 2);
 		return;
 	}
 	p->nfaults = 1 + (int)rng_below(&v, 3);
